@@ -88,6 +88,12 @@ def _case(draw):
     case = {'n': n, 'edges': edges, 'active0': active0, 'steps': steps}
     if draw(st.integers(0, 1)) == 0:
         case['order'] = draw(st.permutations(list(range(n))))
+    if draw(st.integers(0, 3)) == 0:
+        # the tasks join the job in this order: a newly added task may be a dependency of an
+        # existing one
+        case['activation'] = draw(st.permutations(list(range(n))))
+    if draw(st.integers(0, 3)) == 0:
+        case['persistent'] = True
     if draw(st.integers(0, 2)) == 0:
         # a coarse clock: consecutive time() calls may return the same value
         case['ticks'] = draw(st.lists(st.sampled_from([0, 0, 1]), min_size=1, max_size=12))
@@ -177,20 +183,37 @@ def _status_name(section):
     return status.name if isinstance(status, TaskStatus) else repr(status)
 
 
+def _alive(case, active):
+    """Indices of the tasks that are part of the job when ``active`` of them exist: by default
+    t0 .. t(active-1); with ``case['activation']`` (a permutation) the tasks join the job in that
+    order, so that a task added later can be a DEPENDENCY of one that is already there."""
+    order = case.get('activation') or list(range(case['n']))
+    return sorted(order[:active])
+
+
 def _run(case, active, state, root, step, clock):
     """One run: read_env -> schedule -> write_env.  Returns dict of observations."""
     envmod, qmod = vsched.modules()
     hard, soft = sc.deps_of(case)
-    names = [f't{i}' for i in range(active)]
-    tasks = [Probe(name, state, root) for name in names]
-    for i, task in enumerate(tasks):
-        task.hard = [tasks[j] for j in sorted(hard[i]) if j < active]
-        task.soft = [tasks[j] for j in sorted(soft[i]) if j < active]
+    alive = _alive(case, active)
+    persistent = state.setdefault('objects', {}) if case.get('persistent') else {}
+    tasks = {}
+    for i in alive:
+        name = f't{i}'
+        if name not in persistent:
+            persistent[name] = Probe(name, state, root)
+        tasks[i] = persistent[name]
+        tasks[i].executions = 0
+    for i, task in tasks.items():
+        task.hard = [tasks[j] for j in sorted(hard[i]) if j in tasks]
+        task.soft = [tasks[j] for j in sorted(soft[i]) if j in tasks]
+        task.depends_on.clear()
+        task.soft_depends_on.clear()
         task.depends_on.update(task.hard)
         task.soft_depends_on.update(task.soft)
     hgraph, sgraph = DepGraph(), DepGraph()
-    order = [i for i in (case.get('order') or ()) if i < active]
-    order += [i for i in range(active) if i not in order]
+    order = [i for i in (case.get('order') or ()) if i in tasks]
+    order += [i for i in alive if i not in order]
     for task in [tasks[i] for i in order]:     # as cambronne.common.build_graphs (job order is free)
         hgraph.add_node(task)
         sgraph.add_node(task)
@@ -205,7 +228,15 @@ def _run(case, active, state, root, step, clock):
     venv.dictionary = real_env.dictionary
 
     def body():
-        backend = qmod.QueueScheduling(step['workers'])
+        if case.get('persistent'):
+            # one process that keeps its task and back-end objects from run to run (an API user;
+            # ``valjean run`` starts afresh each time)
+            key = ('$backend', step['workers'])
+            if key not in persistent:
+                persistent[key] = qmod.QueueScheduling(step['workers'])
+            backend = persistent[key]
+        else:
+            backend = qmod.QueueScheduling(step['workers'])
         sched = Scheduler(hard_graph=hgraph, soft_graph=sgraph, backend=backend)
         return sched.schedule(env=venv)
 
@@ -213,7 +244,7 @@ def _run(case, active, state, root, step, clock):
                                              clock_start=clock, ticks=case.get('ticks'))
     obs = {'how': how, 'value': value, 'verdict': ctrl.verdict, 'clock': ctrl.clock,
            'before': before, 'after': None, 'decisions': ctrl.decisions,
-           'executions': {i: t.executions for i, t in enumerate(tasks)}}
+           'executions': {i: t.executions for i, t in tasks.items()}}
     if how == 'returned':
         out_env = RealEnv()
         out_env.dictionary = venv.dictionary
@@ -224,14 +255,15 @@ def _run(case, active, state, root, step, clock):
 
 def _judge_run(case, active, obs, runno, fails):
     hard, soft = sc.deps_of(case)
-    full = {i: {d for d in hard[i] | soft[i] if d < active} for i in range(active)}
+    alive = _alive(case, active)
+    full = {i: {d for d in hard[i] | soft[i] if d in alive} for i in alive}
     before, after, execs = obs['before'], obs['after'], obs['executions']
 
     def kind(i, d):
         return 'b' if d in hard[i] and d in soft[i] else 'h' if d in hard[i] else 's'
 
     # (a) no stale DONE
-    for i in range(active):
+    for i in alive:
         sec = after.get(f't{i}')
         if _status_name(sec) != 'DONE':
             continue
@@ -266,7 +298,7 @@ def _judge_run(case, active, obs, runno, fails):
             if d_end is None or t_start is None or not d_end <= t_start:
                 return False
         return True
-    for i in range(active):
+    for i in alive:
         trans = _transitive(full, i, memo)
         if not (consistent(i) and all(consistent(d) for d in trans)):
             continue
@@ -311,12 +343,13 @@ def _history(case, out, dfs_choices=None):
                     out.labels.append('run-did-not-return')      # judged by C03
                     break
                 _judge_run(case, active, obs, runs, out.failures)
-                for i in range(active):
+                alive = _alive(case, active)
+                for i in alive:
                     if obs['executions'][i] and runs >= 2 and i in done_prev:
-                        deps_on_i = [k for k in range(active) if i in (hard[k] | soft[k])]
+                        deps_on_i = [k for k in alive if i in (hard[k] | soft[k])]
                         if any(_status_name(obs['before'].get(f't{k}')) == 'DONE' for k in deps_on_i):
                             chain_rerun = True
-                done_prev = {i for i in range(active)
+                done_prev = {i for i in alive
                              if _status_name(obs['after'].get(f't{i}')) == 'DONE'}
             elif step['op'] == 'fail':
                 state['outcomes'][f't{step["i"] % case["n"]}'] = step['how']
@@ -372,6 +405,10 @@ def run_case(case):
         out.labels.append('coarse-clock')
     if case.get('order'):
         out.labels.append('insertion-order-permuted')
+    if case.get('activation'):
+        out.labels.append('tasks-join-in-generated-order')
+    if case.get('persistent'):
+        out.labels.append('objects-kept-between-runs')
     if runs >= 2:
         out.labels.append('multi-run')
     if runs >= 2 and chain_rerun:
